@@ -2,3 +2,4 @@ import KoalaVerif.Model.Json
 import KoalaVerif.Model.Lattice
 import KoalaVerif.Model.Flux
 import KoalaVerif.Model.Tables
+import KoalaVerif.Model.Cnf
